@@ -753,6 +753,20 @@ class WriteFmt(Native):
     def __init__(s,fref,tmpl,args): s.fref=fref; s.t=tmpl; s.args=args; s.i=0; s.k=0; s.wait=False; s.res=ok(Unit())
     def step(s,M,st):
         while True:
+            if getattr(s,'fstate',None):
+                # f32 Display (S4): '0' | '-0' | '1' | NUM(v) for 0<v<1 ; anything else is outside the modelled domain
+                v=s.fval; buf=deref(s.fref).buf; stt=s.fstate
+                if stt=='zero?':
+                    if s.taken: s.fstate='neg?'; return ('branch',z3.fpIsNegative(v))
+                    s.fstate='one?'; return ('branch',z3.fpEQ(v,z3.FPVal(1.0,F32)))
+                if stt=='neg?':
+                    buf.extend(Int(x,8) for x in (b'-0' if s.taken else b'0')); s.fstate=None; continue
+                if stt=='one?':
+                    if s.taken: buf.append(Int(ord('1'),8)); s.fstate=None; continue
+                    s.fstate='unit?'; return ('branch',z3.And(z3.fpGT(v,z3.FPVal(0.0,F32)),z3.fpLT(v,z3.FPVal(1.0,F32))))
+                if stt=='unit?':
+                    if not s.taken: raise Unsupported('f32 Display of a value outside [0,1] (or NaN)')
+                    buf.append(('NUM',v)); s.fstate=None; continue
             if s.wait:
                 s.wait=False; r=s.pending
                 if r.var!='Ok': return ('ret',r)
@@ -766,6 +780,8 @@ class WriteFmt(Native):
                 a=s.args[s.k]; s.k+=1; s.i+=1
                 act=fmt_dispatch(M,a.f[0],a.f[1],s.fref)
                 if act is None: continue
+                if act[0]=='f32':
+                    s.fval=act[1]; s.fstate='zero?'; return ('branch',z3.fpIsZero(act[1]))
                 s.wait=True; return act
             raise Unsupported(f'format template opcode {op:#x}')
 def fmt_dispatch(M,vref,ty,fref):
@@ -774,7 +790,7 @@ def fmt_dispatch(M,vref,ty,fref):
     while ty.startswith('&'):
         ty=ty[1:].strip(); vref=deref_once(vref)
     if ty=='f32':
-        v=deref(vref); deref(fref).buf.append(('NUM',v.v)); return None
+        return ('f32',deref(vref).v)
     if ty=='String':
         deref(fref).buf.extend(deref(vref).b); return None
     f=resolve_callee(M,f'<{ty} as std::fmt::Display>::fmt') or resolve_callee(M,f'<{ty} as Display>::fmt')
@@ -1041,20 +1057,32 @@ def call_model(M,st,fr,callee,args):
         L=z3.BitVec(f'numlen{M.fresh()}',64); st.pc.append(z3.And(z3.UGE(L,1),z3.ULE(L,64)))
         return Int(L+(len(b)-1),64)
     if c=='<String as Deref>::deref': return args[0]
+    if c=='core::str::<impl str>::is_ascii':
+        b=deref(args[0]).b
+        return mkbool(z3.And(*[z3.ULT(x.z(),0x80) for x in b if not is_num(x)])) if any(not is_num(x) for x in b) else Bool(True)
     if c=='str::<impl str>::replace::<&str>':
         sv=deref(args[0]); pat=deref(args[1]); to=deref(args[2])
         if len(pat.b)!=1 or to.b: raise Unsupported('replace pattern')
         out=[]
         for x in sv.b:
             if is_num(x): out.append(x); continue
-            if not x.conc(): raise Unsupported('replace on symbolic byte')
+            if not x.conc():
+                # a symbolic byte: fine as long as the path condition decides whether it is the pattern byte
+                can=M.feasible(st.pc,x.z()==pat.b[0].v)
+                if not can: out.append(x); continue
+                if M.feasible(st.pc,x.z()!=pat.b[0].v): raise Unsupported('replace: a symbolic byte may or may not be the pattern')
+                continue
             if x.v!=pat.b[0].v: out.append(x)
         return PyObj('string',b=out)
     if c=='core::str::<impl str>::split::<&str>':
         sv=deref(args[0]); pat=deref(args[1]); pieces=[[]]
         for x in sv.b:
             if (not is_num(x)) and x.conc() and x.v==pat.b[0].v: pieces.append([])
-            elif (not is_num(x)) and not x.conc(): raise Unsupported('split on symbolic byte')
+            elif (not is_num(x)) and not x.conc():
+                can=M.feasible(st.pc,x.z()==pat.b[0].v)
+                if not can: pieces[-1].append(x)
+                elif M.feasible(st.pc,x.z()!=pat.b[0].v): raise Unsupported('split: a symbolic byte may or may not be the separator')
+                else: pieces.append([])
             else: pieces[-1].append(x)
         return PyObj('iter',src='list',items=[Str(p) for p in pieces],pos=0)
     if c=="<std::str::Split<'_, &str> as IntoIterator>::into_iter": return args[0]
